@@ -5,6 +5,7 @@ independent backtracking oracle (pbt/oracle/iso.py); rdflib's compare.isomorphic
 to_canonical_graph, graph_diff and skolemize/de_skolemize are checked against it."""
 from __future__ import annotations
 
+import json
 import warnings
 
 from hypothesis import strategies as st
@@ -94,6 +95,31 @@ def _run(case):
         if truth and h1 != h2:
             out.fail(("internal_hash-differs-for-isomorphic", fam), str(case))
             return out
+        # the same IsomorphicGraph object after an edit that keeps its size: one edge redirected to another of its nodes
+        ed = case.get("edit")
+        if ed is not None and j1:
+            t = j1[ed[0] % len(j1)]
+            nodes = sorted({json.dumps(x) for tr in j1 for x in (tr[0], tr[2]) if x[0] != "l"})
+            new = [t[0], t[1], json.loads(nodes[ed[1] % len(nodes)])]
+            if new != t and new not in j1:
+                j3 = [x for x in j1 if x != t] + [new]
+                k3 = keys(j3)
+                e = sut(lambda: (i1.remove(tuple(T(x) for x in t)), i1.add(tuple(T(x) for x in new))))
+                if is_err(e):
+                    out.fail(("edit-raises", e.kind), f"{case}: {e!r}")
+                    return out
+                t32 = iso.isomorphic(k3, k2)
+                r = sut(lambda: i1 == i2)
+                if is_err(r) or r != t32:
+                    out.fail(("to_isomorphic-eq-after-edit", "false-positive" if r is True else "false-negative", fam),
+                             f"truth={t32} got={r!r} after replacing {t} by {new}: {case}")
+                    return out
+                fresh = sut(compare.to_isomorphic, to_graph(j3))
+                r = sut(lambda: i1 == fresh)
+                if is_err(r) or r is not True:
+                    out.fail(("to_isomorphic-eq-after-edit", "differs-from-fresh-copy", fam), f"got={r!r} after replacing {t} by {new}: {case}")
+                    return out
+                out.cls("edited-in-place")
         # canonical graphs
         c1, c2 = sut(compare.to_canonical_graph, g1), sut(compare.to_canonical_graph, g2)
         if is_err(c1) or is_err(c2):
@@ -162,6 +188,13 @@ def pairs(draw, tier):
     if bns and draw(st.booleans()):
         b = list(draw(st.sampled_from(bns)))
         extra.append([b, ["u", "urn:mark"], ["l", "m", None, None]])
+    lang_variant = None
+    if draw(st.integers(0, 3)) == 0:
+        # a language-tagged literal that the second graph spells with another case of the tag (the same term)
+        tag = draw(st.sampled_from(["en-US", "EN", "de-ch", "zh-Hant-TW"]))
+        who = list(draw(st.sampled_from(bns))) if bns and draw(st.booleans()) else ["u", "urn:s"]
+        extra.append([who, ["u", "urn:lbl"], ["l", "hi", tag, None]])
+        lang_variant = tag
     g1 = triples + ground + extra
     seen, d1 = set(), []
     for t in g1:
@@ -176,6 +209,9 @@ def pairs(draw, tier):
     def rn(x):
         return ["b", ren[x[1]]] if x[0] == "b" else x
     g2 = [[rn(x) for x in t] for t in draw(st.permutations(g1))]
+    if lang_variant:
+        other = lang_variant.lower() if lang_variant != lang_variant.lower() else lang_variant.upper()
+        g2 = [[x if not (x[0] == "l" and x[2] == lang_variant) else ["l", x[1], other, None] for x in t] for t in g2]
     perturb = None
     if g2 and draw(st.booleans()):
         kind = draw(st.sampled_from(["move-end", "drop", "add", "swap-objects", "ground"]))
@@ -202,7 +238,8 @@ def pairs(draw, tier):
             if repr(t) not in seen:
                 seen.add(repr(t)); d2.append(t)
         g2 = d2
-    return {"family": fam, "g1": g1, "g2": g2, "perturb": perturb, "skolem": draw(st.integers(0, 1))}
+    edit = draw(st.one_of(st.none(), st.tuples(st.integers(0, 30), st.integers(0, 30)).map(list)))
+    return {"family": fam, "g1": g1, "g2": g2, "perturb": perturb, "skolem": draw(st.integers(0, 1)), "edit": edit}
 
 
 SUBCHECKS = [Sub("pairs", lambda tier: pairs(tier), run, {"quick": 3200, "thorough": 48000})]
